@@ -48,6 +48,14 @@ def cli_probe(chk):
         os.mkdir(os.path.join(d, "dir.scm"))
         latin = os.path.join(d, "latin1.scm")
         open(latin, "wb").write(b"(import (scheme base))\n(define caf\xe9 1)\n(car 5)\n")
+        # blanks and tabs at the end of a line are text when the line break lies inside a string literal; no final newline; CRLF
+        for name, text, want in (("trail.scm", '(import (scheme base) (scheme write))\n(display "ab  \ncd\t\nef")\n(display "x \n")', b"ab  \ncd\t\nefx \n"),
+                                 ("crlf.scm", '(import (scheme base) (scheme write))\r\n(display 1)\r\n(display (+ 1 1))\r\n', b"12")):
+            fpath = os.path.join(d, name)
+            open(fpath, "w", newline="").write(text)
+            p = subprocess.run([exe, fpath], capture_output=True, timeout=30)
+            if p.returncode != 0 or p.stdout != want:
+                return True, "file %s (%r): exit status %d, stdout %r (expected %r), stderr %r" % (name, text, p.returncode, p.stdout[:80], want, p.stderr[:80])
         for unreadable in (os.path.join(d, "dir.scm"), latin):
             p = subprocess.run([exe, unreadable], capture_output=True, timeout=30)
             if p.returncode == 0 or not p.stderr:
@@ -288,7 +296,11 @@ def spec_file_stream(chk):
         yield NONE
         if k < 2:
             ex_.log("line", ok=True)
-            yield Some(Ok(CharStr((z3.IntVal(97 + k), z3.IntVal(98)))))
+            # the second character of every line is open: a letter, a blank or a tab (a blank at the end of a line is text)
+            c = z3.Int("line%d_last" % k)
+            ex_.ctx.add(z3.Or(c == 98, c == 32, c == 9))
+            chk.region_ns[str(c)] = c
+            yield Some(Ok(CharStr((z3.IntVal(97 + k), c))))
             ex_.log("line", ok=False)
             yield Some(Err(Opaque("std::io::Error", "read_error%d" % k)))
 
@@ -319,15 +331,23 @@ def spec_file_stream(chk):
             continue
         stream = rv.fields[0]
 
-        def drain_all(n):
+        def drain_all(n, got):
             for o in iter_next(ex, stream):
                 if o.variant == "None" or n > 12:
                     chk.path(unit)
                     read_failed = [e for e in ex.events if e["kind"] == "line" and not e["ok"]]
                     chk.oblige(ex, unit, "the character stream ends normally only if every line was read", z3.BoolVal(not read_failed), {}, replay)
+                    if not read_failed and o.variant == "None":
+                        # the program text is the file's text: every line, character by character, each followed by a line end
+                        k = len([e for e in ex.events if e["kind"] == "line" and e["ok"]])
+                        want = []
+                        for i in range(k):
+                            want += [z3.IntVal(97 + i), chk.region_ns["line%d_last" % i], z3.IntVal(10)]
+                        same = z3.And(*[g == w for g, w in zip(got, want)]) if len(got) == len(want) else z3.BoolVal(False)
+                        chk.oblige(ex, unit, "the character stream is the text of the file: each line unchanged, followed by a line end", same, dict(chk.region_ns), replay)
                 else:
-                    drain_all(n + 1)
-        drain_all(0)
+                    drain_all(n + 1, got + [o.fields[0]])
+        drain_all(0, [])
 
 
 def run(chk):
